@@ -51,7 +51,7 @@ CHECKS = {
                 '(scan-of-print and export-of-canonical theorems shared with C01); non-note tokens are exported as '
                 'their text, the default category set deletes no sub-part, exported sub-parts are a permutation of the note\'s '
                 'sub-parts, separator-free text is identical in all encodings; with every spine selected the export body is the grid of '
-                'the stages (one cell per node, in order) minus exactly the empty and the all-null rows (C03_export_is_the_stage_grid). The remaining grid clauses (same lines minus global '
+                'the stages (one cell per node, in order) minus exactly the empty and the all-null rows (C03_export_is_the_stage_grid), and the exported text is read back as that grid cell for cell (C03_export_text_is_the_exported_grid). The remaining grid clauses (same lines minus global '
                 'comments and null lines, every cell against the generator\'s own description) are decided by correspondence of '
                 'the importer/exporter model and by the oracle monitor on kernpy. Known findings K2 (hidden barlines) and K3 '
                 '(separator characters inside non-note cells).',
@@ -121,7 +121,8 @@ CHECKS = {
                 'rejected; **signatures in force**: in every imported document a node\'s signature dictionary reads, per class, '
                 'exactly the nearest signature cell of that class above it on its spine path (C08_signatures_in_force_partial, '
                 'an import invariant), and the signature block of an excerpt is made column by column of these dictionaries '
-                'minus the entries replaced before the first note (C08_excerpt_signature_block_partial). The composition import-export-import (header first, rectangular, re-imports without errors, same '
+                'minus the entries replaced before the first note (C08_excerpt_signature_block_partial); the text of an excerpt '
+                'is read back as exactly its rows (C08_excerpt_read_back_partial). The composition import-export-import (header first, rectangular, re-imports without errors, same '
                 'clef/key/meter in force for every note) is NOT proved; for the claimed core class it is decided by running '
                 'kernpy on every range of generated documents with an independent path walk over excerpt and full score, and '
                 'by model/impl correspondence. The other classes are explored and reported as finding K5.',
@@ -175,7 +176,8 @@ CHECKS = {
         'text': 'PARTIAL. Theorems in coq/props/C20.v (pure part): the file reader and the text reader of the importer model split '
                 'EVERY byte string free of the extra str.splitlines separators into the same rows, hence load = loads on the '
                 'model (induction over the bytes); the csv / open arguments of both readers are an obligation regenerated from the '
-                'source. open(), encodings, makedirs, argparse, Path.glob and process exit codes cannot '
+                'source; the text dumps returns is read back by the file reader as exactly the rendered rows, so load(dump(d)) '
+                'imports from the exported grid (C20_dump_then_load_reads_exported_rows). open(), encodings, makedirs, argparse, Path.glob and process exit codes cannot '
                 'be expressed in an executable Gallina model: they are decided by real temporary files and python -m kernpy '
                 'subprocesses (load vs loads on LF/CRLF/CR files, dump vs dumps into missing directories, kern2ekern / '
                 'ekern2kern single file and directory mode with and without -r, ekern-kern-ekern round trip). Known finding K9.',
